@@ -182,8 +182,14 @@ impl<T: FileReader> RVParser<T> {
                 }
                 Err(x) => match x {
                     LexError::Expected(ex, got) => {
+                        // If the offending token is the end of the line, the
+                        // line is already over: skipping "the rest of the
+                        // line" would silently drop the following line.
+                        let at_end_of_line = *got == TokenType::Newline;
                         parse_errors.push(ParseError::Expected(ex, got));
-                        self.recover_from_parse_error();
+                        if !at_end_of_line {
+                            self.recover_from_parse_error();
+                        }
                     }
                     LexError::IsNewline(_) => {}
                     LexError::UnexpectedToken(got) => {
